@@ -6,6 +6,7 @@ import (
 	"hash/maphash"
 	"os"
 	"sort"
+	"sync"
 	"time"
 
 	"github.com/TarsCloud/TarsGo/tars/protocol/codec"
@@ -90,6 +91,91 @@ func smallLattice(m *ref.Member) []*ref.Value {
 // fullLatticeRange visits the values with index in [lo,hi) of the Full lattice
 // of DESIGN §3 for a member type, without materialising the large scalar
 // lattices as value trees.
+var (
+	intLatMu    sync.Mutex
+	intLatCache = map[ref.Kind][]int64{}
+)
+
+// fullInts caches ref.IntLattice(k, Full) (sorting the 390k values of the
+// 64-bit lattice for every unit would dominate the run).
+func fullInts(k ref.Kind) []int64 {
+	intLatMu.Lock()
+	defer intLatMu.Unlock()
+	l, ok := intLatCache[k]
+	if !ok {
+		if k == ref.KInt64 && quickLattices {
+			l = powerInts()
+		} else {
+			l = ref.IntLattice(k, ref.Full)
+		}
+		intLatCache[k] = l
+	}
+	return l
+}
+
+// quickLattices (quick tier): the 64-bit integer lattice is ±2^k+d only (the
+// 5^8 byte-pattern values stay in the thorough tier) and the float lattices
+// take one low part per top half instead of three.
+var quickLattices bool
+
+func powerInts() []int64 {
+	seen := map[int64]bool{}
+	var out []int64
+	add := func(x int64) {
+		if !seen[x] {
+			seen[x] = true
+			out = append(out, x)
+		}
+	}
+	add(0)
+	for e := uint(0); e <= 63; e++ {
+		for d := int64(-2); d <= 2; d++ {
+			p := int64(1) << e // e == 63: MinInt64, neighbours wrap to MaxInt64-1, MaxInt64
+			add(p + d)
+			add(-p + d)
+		}
+	}
+	sort.Slice(out, func(i, j int) bool { return out[i] < out[j] })
+	return out
+}
+
+func fullFloat32() []uint32 {
+	l := ref.Float32Lattice(ref.Full)
+	if !quickLattices {
+		return l
+	}
+	out := make([]uint32, 0, len(l)/3)
+	for i := 0; i < len(l); i += 3 {
+		out = append(out, l[i+(i/3)%3]) // low parts 0000, 0001, ffff in turn
+	}
+	return out
+}
+
+func fullFloat64() []uint64 {
+	l := ref.Float64Lattice(ref.Full)
+	if !quickLattices {
+		return l
+	}
+	out := make([]uint64, 0, len(l)/3)
+	for i := 0; i < len(l); i += 3 {
+		out = append(out, l[i+(i/3)%3])
+	}
+	return out
+}
+
+// scalarKey is a cheap injective key for scalar values (ok == false: use ref.KeyString).
+func scalarKey(t *ref.Type, v *ref.Value) (uint64, bool) {
+	switch {
+	case t.Kind.IsInteger():
+		return uint64(v.Int), true
+	case t.Kind == ref.KFloat:
+		return uint64(uint32(v.Bits)), true
+	case t.Kind == ref.KDouble:
+		return v.Bits, true
+	}
+	return 0, false
+}
+
 func fullLatticeRange(t *ref.Type, lo, hi int, f func(*ref.Value)) {
 	in := func(i int) bool { return i >= lo && i < hi }
 	switch {
@@ -100,25 +186,25 @@ func fullLatticeRange(t *ref.Type, lo, hi int, f func(*ref.Value)) {
 				f(v)
 			}
 		}
-		for i, x := range ref.IntLattice(ref.KInt32, ref.Full) {
+		for i, x := range fullInts(ref.KInt32) {
 			if in(len(l) + i) {
 				f(ref.VInt(ref.KEnum, x))
 			}
 		}
 	case t.Kind.IsInteger():
-		for i, x := range ref.IntLattice(t.Kind, ref.Full) {
+		for i, x := range fullInts(t.Kind) {
 			if in(i) {
 				f(ref.VInt(t.Kind, x))
 			}
 		}
 	case t.Kind == ref.KFloat:
-		for i, b := range ref.Float32Lattice(ref.Full) {
+		for i, b := range fullFloat32() {
 			if in(i) {
 				f(ref.VFloat(b))
 			}
 		}
 	case t.Kind == ref.KDouble:
-		for i, b := range ref.Float64Lattice(ref.Full) {
+		for i, b := range fullFloat64() {
 			if in(i) {
 				f(ref.VDouble(b))
 			}
@@ -400,10 +486,13 @@ const (
 func fullLatticeLen(t *ref.Type) int {
 	switch {
 	case t.Kind == ref.KEnum:
-		return len(ref.Lattice(t, ref.Full)) + len(ref.IntLattice(ref.KInt32, ref.Full))
+		return len(ref.Lattice(t, ref.Full)) + len(fullInts(ref.KInt32))
 	case t.Kind.IsInteger():
-		return len(ref.IntLattice(t.Kind, ref.Full))
+		return len(fullInts(t.Kind))
 	case t.Kind == ref.KFloat, t.Kind == ref.KDouble:
+		if quickLattices {
+			return 1 << 16
+		}
 		return 3 << 16
 	case t.Kind == ref.KStruct:
 		return 0
@@ -528,9 +617,11 @@ func (c *c03) runUnit(u c03unit, st *stats) {
 		base = b1
 	}
 	n := len(s.Def.Members)
+	// distinct values of the unit, by the hash of their reference encoding
+	// (explicit defaults, sorted maps: independent of Go's map order)
 	distinct := map[uint64]struct{}{}
-	note := func(b []byte) {
-		if b != nil {
+	note := func(v *ref.Value) {
+		if b, err := ref.EncodeWith(s.Def, v, ref.EncodeOptions{KeepDefaults: true, SortMaps: true}); err == nil {
 			distinct[maphash.Bytes(c.seed, b)] = struct{}{}
 		}
 	}
@@ -543,32 +634,44 @@ func (c *c03) runUnit(u c03unit, st *stats) {
 				return
 			}
 			st.n[devKeys[ndev]]++
-			note(c.checkValue(s, v, true, st))
+			c.checkValue(s, v, true, st)
+			note(v)
 		})
 		st.n["units_A"]++
 	case "B":
 		m := s.Def.Members[u.member]
 		small := map[string]bool{}
+		smallScalar := map[uint64]bool{}
 		for _, x := range smallLattice(m) {
-			small[ref.KeyString(m.Type, x)] = true
+			if k, ok := scalarKey(m.Type, x); ok {
+				smallScalar[k] = true
+			} else {
+				small[ref.KeyString(m.Type, x)] = true
+			}
 		}
 		cur := base.Clone()
 		fullLatticeRange(m.Type, u.lo, u.hi, func(x *ref.Value) {
-			if small[ref.KeyString(m.Type, x)] {
+			if k, ok := scalarKey(m.Type, x); ok {
+				if smallScalar[k] {
+					return // part of phase A
+				}
+			} else if small[ref.KeyString(m.Type, x)] {
 				return // part of phase A
 			}
 			cur.Elems[u.member] = x
 			st.n["cases_full_lattice"]++
-			note(c.checkValue(s, cur, false, st))
+			c.checkValue(s, cur, false, st)
+			note(cur)
 		})
 		st.n["units_B"]++
 	}
-	st.n["distinct_encodings"] += uint64(len(distinct))
+	st.n["distinct_values"] += uint64(len(distinct))
 }
 
 func mainC03(reg Registry) {
 	run := common.Start("C03", "model_checking")
 	c := &c03{thorough: run.Thorough(), blockTags: []byte{0, 15}, seed: maphash.MakeSeed()}
+	quickLattices = !c.thorough
 	subjects, corpus, mismatches, err := LoadSubjects(os.Getenv(envTarsDir), reg)
 	if err != nil {
 		run.InfraError("%v", err)
@@ -628,6 +731,7 @@ func mainC03(reg Registry) {
 			_, b1 := ref.Baselines(s.Def)
 			if g, err := newFrom(s, b1); err == nil {
 				b, _, _ := implWriteTo(g)
+				b = sortMapEntries(b) // Go's map order is random; keep the evidence file stable
 				samples = append(samples, fmt.Sprintf("%s all-non-default %s -> WriteTo %s", s.Name, ref.Format(s.Type, b1), hexClip(b)))
 			}
 		}
@@ -653,7 +757,7 @@ func mainC03(reg Registry) {
 		"transitions":                   nc["impl_calls"],
 		"traces_validated_against_impl": nc["cases"],
 		"evaluations":                   nc["cases"] + nc["block_cases"],
-		"distinct_nontrivial":           nc["distinct_encodings"],
+		"distinct_nontrivial":           nc["distinct_values"],
 		"programs":                      len(subjects),
 		"structs_res":                   nres,
 		"structs_corpus":                len(subjects) - nres,
@@ -677,14 +781,15 @@ func mainC03(reg Registry) {
 			"product_budget":         budget,
 			"baselines":              "all-default and all-non-default (ref.Baselines)",
 			"small_lattice":          "ref.Lattice(type, Small) plus the member's declared default, the type's zero and their neighbours (default±1, negated, next/previous float, default with a byte added/removed); nested struct members: both baselines and every single-member deviation of them",
-			"full_lattice":           "every single-member deviation over the Full lattice of DESIGN §3 (integers ±2^k+d and all {00,01,7f,80,ff} byte patterns; floats all 2^16 top halves x 3 low parts; strings/byte vectors every length 0..600, 65535, 65536, 70000 x 3 fills; containers 0,1,2,255,256 elements), WriteTo/ReadFrom only",
+			"full_lattice":           "every single-member deviation over the Full lattice of DESIGN §3 (integers ±2^k+d and all {00,01,7f,80,ff} byte patterns; floats all 2^16 top halves x 3 low parts; strings/byte vectors every length 0..600, 65535, 65536, 70000 x 3 fills; containers 0,1,2,255,256 elements), WriteTo/ReadFrom only; quick tier: 64-bit integers ±2^k+d only (no byte patterns) and one of the three low parts per float top half (taken in turn)",
+			"quick_lattices":         quickLattices,
 			"block_tags":             c.blockTags,
 			"k_per_struct":           "largest k <= deviation_bound_k whose product over the small lattices stays within product_budget values per baseline (structs_by_deviation_bound)",
 			"corpus":                 "verif/gen corpus of the tier (struct files only), compiled by the working-tree tars2go",
 			"largest_value_in_bytes": 70000,
 		},
 		"rule": "cases = (struct, value); values of a struct = both baselines, every replacement of at most k members by a small-lattice value (WriteTo+WriteBlock at tags 0 and 15), and every replacement of one member by a Full-lattice value not already in the small lattice (WriteTo only); from the all-non-default baseline, products replacing every member are skipped because the all-default baseline reaches them; " +
-			"each case: ToGo -> WriteTo -> strict reference parse + schema walk + reference decode + ReadFrom into a fresh struct (and the same through WriteBlock/ReadBlock); distinct_nontrivial counts distinct byte strings produced by WriteTo per unit; per signature the smallest case is kept; units are independent and merged in a fixed order",
+			"each case: ToGo -> WriteTo -> strict reference parse + schema walk + reference decode + ReadFrom into a fresh struct (and the same through WriteBlock/ReadBlock); distinct_nontrivial counts distinct values per unit (hash of the reference encoding with explicit defaults and sorted maps); per signature the smallest case is kept; units are independent and merged in a fixed order",
 	}
 	run.Finish(cov, []string{
 		"the reference codec, the .tars reader (verif/ref) and the corpus metadata (verif/gen) are independent of codec.go and tars2go; schemas never come from the generated Go code",
@@ -712,6 +817,7 @@ func (c *c03) replay(run *common.Run, subjects []*Subject) {
 		run.InfraError("replay: unknown struct %q", cs.Subject)
 		run.Finish(nil, nil)
 	}
+	c.thorough = cs.Thorough
 	vb, err := hex.DecodeString(cs.ValueHex)
 	if err != nil {
 		run.InfraError("replay: bad hex")
